@@ -475,7 +475,7 @@ def _(c):
                             And(opt_eq(na.current, oa.current), eq(na.offset, oa.offset))))
             conds.append(And(eq(na.homeOffset, oa.homeOffset), Iff(na.absoluteMode, oa.absoluteMode), eq(na.unitMultiplier, oa.unitMultiplier)))
         return And(*conds)
-    c.ensures("C08.homing-resets-listed-axes", post, props=("C08", "C19", "C02", "C09"))
+    c.ensures("C08.homing-resets-listed-axes", post, props=("C08", "C19", "C02", "C09", "C01", "C03", "C14"))
     c.ensures("C02.transparent", lambda f: Implies(J(f.old.self.state), J(f.self.state)), props=("C02",))
     # C01: nothing forwarded while an episode is open may move X/Y/Z -- but G28 is passed through unchanged
     c.ensures("C01.no-homing-motion-inside", lambda f: Not(f.old.self.state.excluding), props=("C01",),
@@ -961,3 +961,18 @@ def _planarc_native_clauses():
 
 
 _planarc_native_clauses()
+
+
+# ------------------------------------------------------------------------------------------ bookkeeping frame (C05 / C04)
+def bookkeeping_kept(f):
+    """The frame-setting handlers (units, modes, G28, G92, M206) touch the coordinate frame only: the retraction
+    bookkeeping (an owed recovery!), the episode state and the deferred commands are what they were."""
+    from contracts.plugin import deep_eq
+    o, n = f.old.self.state, f.self.state
+    return And(*[deep_eq(getattr(n, k), getattr(o, k)) for k in
+                 ("lastRetraction", "lastPosition", "excluding", "_exclusionEnabled", "excludeStartTime", "numExcludedCommands")])
+
+
+for _code in ("G20", "G21", "G90", "G91", "G28", "G92", "M206"):
+    REGISTRY.get(H + "_handle_" + _code).ensures("C05.frame-handlers-keep-the-retraction-bookkeeping", bookkeeping_kept,
+                                                 props=("C05", "C04", "C02", "C01", "C03", "C09"))
